@@ -237,10 +237,24 @@ package mhprimary
 //@   loop 0 invariant @open-file (file != nil && !gstatfailed ==> gfn == curFileNum) && (file == nil || fresh(file)) && affected != nil && 0 <= $idx && $idx <= len(freeBatch)
 //@   loop 0 invariant @entries forall i int :: 0 <= i && i < len(freeBatch) ==> freeBatch[i] != nil
 
-//@ func processFreeList(ctx context.Context, freeList *freelist.FreeList, basePath string, maxFileSize uint32) (affected map[uint32]struct{}, err error)
-//@   trusted T5 contract pending: marks the records named by the rotated freelist file as deleted (see DESIGN.md 10)
-//@   modifies heap("freelist.FreeList"), heap("os.File"), ctx.$done
-//@   fresh affected
+// processFreeList (C13, C03-D7): every entry read from the hand-over file is passed to
+// deleteRecords before the file is removed; the file is removed only after the whole file was
+// read to its end, and it is kept on every error path (its entries are then applied again by
+// the next cycle: at least once; deleteRecords skips records that are already marked).
+//@ func processFreeList(ctx context.Context, freeList *freelist.FreeList, basePath string, maxFileSize uint32) (affected map[uint32]struct{}, err error)  property C13 C03 C04
+//@   requires freeList != nil && maxFileSize > 0
+//@   modifies heap("freelist.FreeList"), fp(IO), heap("bufio."), ctx.$done
+//@   ghost var gread int = 0
+//@   ghost var gapplied int = 0
+//@   ghost var gpath string = ""
+//@   ghost at after call freelist.FreeList.ToGC#0: gpath = $r0
+//@   ghost at after call freelist.Iterator.Next#0: gread = gread + ite($r1 == nil, 1, 0)
+//@   ghost at before call mhprimary.deleteRecords#0: gapplied = gapplied + len($a0)
+//@   ghost at before call mhprimary.deleteRecords#1: gapplied = gapplied + len($a0)
+//@   assert at before call os.OpenFile#0: @reads-handover-file $a0 == gpath
+//@   assert at before call os.Remove#0: @C13-handover-file-removed-only-after-all-entries-applied $a0 == gpath && gread == gapplied
+//@   loop 0 invariant @batch gread == gapplied + len(freeBatch) && 0 <= gapplied && affectedSet != nil && flIter != nil && flFile != nil && fresh(flFile) && (baseof(freeBatch) == 0 || fresh(freeBatch)) && flPath == gpath
+//@   loop 0 invariant @entries forall i int :: 0 <= i && i < len(freeBatch) ==> freeBatch[i] != nil
 
 // primaryGC.gc: only non-current files are reaped (the bound is the flushed file number, read
 // under flushLock); a file is unlinked only when it is dead and the first file, and only after
